@@ -205,6 +205,21 @@ func nodes(v *Val, acc *[]*Val) {
 	}
 }
 
+// elemsOf: the struct-list elements of the tree (their size is the list's, not their own).
+func elemsOf(v *Val) map[*Val]bool {
+	var all []*Val
+	nodes(v, &all)
+	m := map[*Val]bool{}
+	for _, n := range all {
+		if n.K == KList && n.LK == LComp {
+			for _, e := range n.Elems {
+				m[e] = true
+			}
+		}
+	}
+	return m
+}
+
 func pickNode(r *Rand, v *Val, ok func(*Val) bool) *Val {
 	var all, sel []*Val
 	nodes(v, &all)
@@ -258,8 +273,7 @@ func nulls(n int) []*Val {
 // preserve the documented equality, the others break it (when applicable).
 func Mutate(r *Rand, v0 *Val) (*Val, string) {
 	v := v0.Clone()
-	any := func(*Val) bool { return true }
-	_ = any
+	isElem := elemsOf(v)
 	switch r.Pick(3, 4, 2, 2, 3, 2, 2, 2, 2, 2, 1, 2) {
 	case 0:
 		return v, "eq-same"
@@ -330,13 +344,13 @@ func Mutate(r *Rand, v0 *Val) (*Val, string) {
 			return v, "ne-upgrade-extra"
 		}
 	case 8: // trailing default fields (schema evolution)
-		if n := pickNode(r, v, func(n *Val) bool { return n.K == KStruct }); n != nil {
+		if n := pickNode(r, v, func(n *Val) bool { return n.K == KStruct && !isElem[n] }); n != nil {
 			n.Data = append(n.Data, make([]byte, 8*r.Intn(3))...)
 			n.Ptrs = append(n.Ptrs, nulls(r.Intn(3))...)
 			return v, "eq-extend0"
 		}
 	case 9: // trailing non-default field
-		if n := pickNode(r, v, func(n *Val) bool { return n.K == KStruct }); n != nil {
+		if n := pickNode(r, v, func(n *Val) bool { return n.K == KStruct && !isElem[n] }); n != nil {
 			if r.Bool() {
 				d := make([]byte, 8*(1+r.Intn(2)))
 				d[len(d)-1-r.Intn(8)] = byte(1 + r.Intn(255))
@@ -364,6 +378,94 @@ func Mutate(r *Rand, v0 *Val) (*Val, string) {
 		}
 	}
 	return v, "eq-same"
+}
+
+// ExtendDefaults appends trailing default fields (zero words / null pointers) to some structs
+// and struct-list elements: a later schema version of the same value.
+func ExtendDefaults(r *Rand, v *Val) {
+	var all []*Val
+	nodes(v, &all)
+	isElem := elemsOf(v)
+	for _, n := range all {
+		switch {
+		case n.K == KStruct && !isElem[n] && r.Intn(2) == 0:
+			n.Data = append(n.Data, make([]byte, 8*r.Intn(3))...)
+			n.Ptrs = append(n.Ptrs, nulls(r.Intn(3))...)
+		case n.K == KList && n.LK == LComp && r.Intn(2) == 0:
+			xd, xp := r.Intn(2), r.Intn(2)
+			for _, e := range n.Elems {
+				e.Data = append(e.Data, make([]byte, 8*xd)...)
+				e.Ptrs = append(e.Ptrs, nulls(xp)...)
+			}
+		}
+	}
+}
+
+// ListShape: one list of length ln of a random kind (targets of C17/C18).
+func ListShape(r *Rand, g *Gen, ln int) *Val {
+	switch r.Intn(8) {
+	case 0:
+		b := make([]bool, ln)
+		for i := range b {
+			b[i] = r.Intn(2) == 0
+		}
+		return &Val{K: KBits, Bits: b}
+	case 1:
+		return &Val{K: KList, LK: LVoid, Prims: make([]uint64, ln)}
+	case 2:
+		l := &Val{K: KList, LK: LK(1 + r.Intn(4))}
+		for i := 0; i < ln; i++ {
+			l.Prims = append(l.Prims, g.prim(l.LK.Width()))
+		}
+		return l
+	case 3: // pointer list, nested lists
+		l := &Val{K: KList, LK: LPtr}
+		for i := 0; i < ln%4; i++ {
+			if r.Bool() {
+				l.Elems = append(l.Elems, ListShape(r, g, r.Intn(4)))
+			} else {
+				l.Elems = append(l.Elems, g.Ptr(1))
+			}
+		}
+		return l
+	case 4: // zero-sized struct elements
+		l := &Val{K: KList, LK: LComp}
+		for i := 0; i < ln; i++ {
+			l.Elems = append(l.Elems, &Val{K: KStruct})
+		}
+		return l
+	case 5: // data-only struct list, trailing zero words in every element
+		l := &Val{K: KList, LK: LComp}
+		dw := 1 + r.Intn(3)
+		used := r.Intn(dw + 1)
+		for i := 0; i < ln; i++ {
+			d := make([]byte, 8*dw)
+			for k := 0; k < 8*used; k++ {
+				if r.Intn(3) == 0 {
+					d[k] = byte(r.U64())
+				}
+			}
+			l.Elems = append(l.Elems, &Val{K: KStruct, Data: d})
+		}
+		return l
+	case 6: // struct list with pointers (nested lists / structs)
+		l := &Val{K: KList, LK: LComp}
+		dw, pc := r.Intn(3), 1+r.Intn(2)
+		for i := 0; i < ln%5; i++ {
+			e := &Val{K: KStruct, Data: g.data(dw)}
+			for j := 0; j < pc; j++ {
+				if r.Intn(3) == 0 {
+					e.Ptrs = append(e.Ptrs, ListShape(r, g, r.Intn(4)))
+				} else {
+					e.Ptrs = append(e.Ptrs, g.Ptr(1))
+				}
+			}
+			l.Elems = append(l.Elems, e)
+		}
+		return l
+	default:
+		return g.Ptr(2)
+	}
 }
 
 // ---------------------------------------------------------------- encoder 1: the library builder
@@ -649,6 +751,22 @@ func words(b []byte) []uint64 {
 	return w
 }
 
+// dirty sets padding to junk: the bytes of the last word beyond nbytes, and (bit lists) the
+// bits of the last byte beyond rembits. Padding is not part of the value.
+func (e *raw) dirty(ws []uint64, nbytes, rembits int) []uint64 {
+	if len(ws) == 0 || e.r.Intn(4) != 0 {
+		return ws
+	}
+	last := len(ws) - 1
+	if k := nbytes % 8; k != 0 && e.r.Bool() {
+		ws[last] |= e.r.U64() << (8 * uint(k))
+	}
+	if rembits != 0 {
+		ws[last] |= uint64(e.r.Intn(256)) << uint(rembits) & 0xff << (8 * uint((nbytes-1)%8))
+	}
+	return ws
+}
+
 // body: an object made of plain words and pointer slots
 type slot struct {
 	at int // word index in the body
@@ -709,7 +827,7 @@ func (e *raw) enc(v *Val) desc {
 				b[i/8] |= 1 << uint(i%8)
 			}
 		}
-		return e.place(words(b), nil, rd.ListPtr(0, 1, uint32(n)), 0)
+		return e.place(e.dirty(words(b), len(b), n%8), nil, rd.ListPtr(0, 1, uint32(n)), 0)
 	}
 	switch v.LK {
 	case LVoid:
@@ -722,7 +840,7 @@ func (e *raw) enc(v *Val) desc {
 				b[i*w+k] = byte(x >> (8 * uint(k)))
 			}
 		}
-		return e.place(words(b), nil, rd.ListPtr(0, uint8(v.LK)+1, uint32(len(v.Prims))), 0)
+		return e.place(e.dirty(words(b), len(b), 0), nil, rd.ListPtr(0, uint8(v.LK)+1, uint32(len(v.Prims))), 0)
 	case LPtr:
 		body := make([]uint64, len(v.Elems))
 		var slots []slot
